@@ -55,6 +55,8 @@ RestartsNumbered(events) ==
 (* ---- C06 ---- *)
 RestartsBounded(events) == \A a \in Actors : Cardinality(EvIdx(events, "Restarted", a)) <= MaxRestarts[a]
 Exhausted(events, a) == EvIdx(events, "MaxRestartsExceeded", a) # {}
+(* the budget is exceeded once: the actor is gone afterwards, nothing of it can fail again *)
+ExhaustedOnce(events) == \A a \in Actors : Cardinality(EvIdx(events, "MaxRestartsExceeded", a)) <= 1
 
 (* a is not the subject of any stop request (directly or through an ancestor) and has not exhausted its budget *)
 NotStopping(issued, events, a) ==
